@@ -893,7 +893,8 @@ def run(spec, mon):
                     case["program"]["outcomes"][sub] = sub_kind
                 case = dict(case, nested={rng.choice(cands): sub}, args=[a for a in case["args"] if a != "--stop"], cfg=dict(case["cfg"], stop=False))
                 mon.seen("nested_sub_step", sub_kind)
-        if i % 8 == 5 and not case.get("hook_fault"):
+        if i % 8 == 6 and not case.get("hook_fault") and not case["cfg"]["stop"] and \
+                not any(oc in ("ki", "abort") for oc in case["program"]["outcomes"].values()):
             # the documented "no background" fixture (examples/fixture.no_background): a tag hook switches the background of the
             # scenario in hand off -- in an environment whose hooks also LOOK at statuses (feature.status) while the run is going on
             def no_background(state, context, name, elem, tag):
